@@ -15,4 +15,9 @@ REVIEWED = {
         "opened before the scan reaches it is the recorded C10 known finding (R3e2), not a second finding here",
     "R3a-cond|file_definitions":
         "reverse index of `definitions`, cleared by the same conditional call (see R3a-cond|definitions)",
+    "R4b|fixtures::resolver::<impl fixtures::FixtureDatabase>::get_fixture_definition_at_line|loop:early-exit|fields=file_path,line":
+        "match key (file, line): one `def` statement per line, so at most one definition matches (the only exception, an "
+        "assignment-style fixture with several targets on one line, yields same-line definitions that differ in name only)",
+    "R4b|fixtures::resolver::<impl fixtures::FixtureDatabase>::find_fixture_at_position|loop:early-exit|fields=file_path,line,name":
+        "match key (file, line, name == word under the cursor): unique per file",
 }
